@@ -99,10 +99,48 @@ Definition utf16_bom (inp : list ascii) : bool :=
   | _ => false
   end.
 
-(* what csv.New + NextRow* see: all records of the file, or an error *)
+(* csv.New reads ONE record (the header) and fails only if that record is malformed or absent; the later records are read
+   by the row loop, if it runs.  [go1] is [go] stopped at the end of the first record. *)
+Inductive res1 := R1Ok (r : row) (rest : list ascii) | R1Err | R1None.
+Fixpoint go1 (s : st) (fld : cell) (rc : row) (inp : list ascii) : res1 :=
+  let endfield := rev fld :: rc in
+  match inp with
+  | [] => match s with RecStart => R1None | FieldStart | Unq | QuoQ => R1Ok (rev endfield) [] | Quo => R1Err end
+  | c :: inp' =>
+    match s with
+    | RecStart =>
+      if Ascii.eqb c NL then go1 RecStart [] [] inp'
+      else if Ascii.eqb c DQ then go1 Quo [] [] inp'
+      else if Ascii.eqb c COMMA then go1 FieldStart [] [ [] ] inp'
+      else go1 Unq [c] [] inp'
+    | FieldStart =>
+      if Ascii.eqb c NL then R1Ok (rev endfield) inp'
+      else if Ascii.eqb c DQ then go1 Quo [] rc inp'
+      else if Ascii.eqb c COMMA then go1 FieldStart [] endfield inp'
+      else go1 Unq [c] rc inp'
+    | Unq =>
+      if Ascii.eqb c NL then R1Ok (rev endfield) inp'
+      else if Ascii.eqb c COMMA then go1 FieldStart [] endfield inp'
+      else if Ascii.eqb c DQ then R1Err
+      else go1 Unq (c :: fld) rc inp'
+    | Quo =>
+      if Ascii.eqb c DQ then go1 QuoQ fld rc inp'
+      else go1 Quo (c :: fld) rc inp'
+    | QuoQ =>
+      if Ascii.eqb c DQ then go1 Quo (DQ :: fld) rc inp'
+      else if Ascii.eqb c COMMA then go1 FieldStart [] endfield inp'
+      else if Ascii.eqb c NL then R1Ok (rev endfield) inp'
+      else R1Err
+    end
+  end.
+Definition read_header (inp : list ascii) : res1 := go1 RecStart [] [] (normalise (strip_bom inp)).
+
+(* what csv.New + NextRow* see when every row is read: all records of the file, or an error *)
 Definition read_all (inp : list ascii) : res := tokenize (normalise (strip_bom inp)).
 
 Definition cell_s (c : cell) : string := string_of_list_ascii c.
+Definition read_header_s (s : string) : option (list string) :=
+  match read_header (list_ascii_of_string s) with R1Ok r _ => Some (map cell_s r) | _ => None end.
 Definition read_all_s (s : string) : option (list (list string)) :=
   match read_all (list_ascii_of_string s) with
   | ROk rows => Some (map (map cell_s) rows)
